@@ -4,19 +4,28 @@
 //   DataSymmetriesForBins_PET_CartesianGrid::{ctor, find_basic_bin, find_symmetry_operation_from_basic_bin, accessors}
 //   SymmetryOperation::{transform_bin_coordinates, transform_view_segment_indices, transform_image_coordinates,
 //                       transform_proj_matrix_elems_for_one_bin, is_trivial}
-//   ProjMatrixByBinUsingRayTracing::{set_do_symmetry_*, set_num_tangential_LORs, set_restrict_to_cylindrical_FOV, set_up,
-//                       enable_cache, store_only_basic_bins_in_cache, clear_cache, get_proj_matrix_elems_for_one_bin}
+//   ProjMatrixByBinUsingRayTracing::{set_do_symmetry_*, set_num_tangential_LORs, set_restrict_to_cylindrical_FOV,
+//                       set_use_actual_detector_boundaries, set_up, enable_cache, store_only_basic_bins_in_cache, clear_cache,
+//                       get_proj_matrix_elems_for_one_bin (incl. apply_tof_kernel for TOF data)}
+//   ProjMatrixByBinUsingInterpolation::{parse (the five symmetry switches), set_up, enable_cache, ..., get_proj_matrix_elems_for_one_bin}
 //   ProjMatrixElemsForOneBin::{merge, sort}
-// on small generated cylindrical geometries.
+// on small generated cylindrical geometries (span 1/2/3/4, outer segments cut off by max_delta, view mashing, TOF with and
+// without TOF mashing, arc correction, odd/even and anisotropic images, finer z sampling, shifted origins).
 //
 // Usage: c03_symmetries <seed> <quick|thorough> <opsfile> <implfile>
 //  section A (ops `cfg`, `sym`)  : every bin x all 32 switch combinations, compared with the Lean model line by line
-//  section B (ops `p*`)          : request histories on one matrix object; rows compared exactly with the model and,
-//                                  in the oracle, with a fresh matrix without symmetries and without cache
-//  section C (oracle only)       : every bin x 32 switch combinations x 3 cache modes x number of tangential rays against
-//                                  the no-symmetry/no-cache row (the property's own statement)
+//                                  (+ bins with timing position != 0 on non-TOF data: the timing-position swap of the operations)
+//  section B (ops `p*`)          : request histories on one matrix object (`pnew 0`: ray tracing, `pnew 1`: interpolation);
+//                                  rows compared exactly with the model and, in the oracle, with a new matrix of the same
+//                                  class without symmetries and without cache; before them two probes (set_up for a
+//                                  second geometry on one object against a new object)
+//  section C (oracle only)       : every bin x 32 switch combinations x 3 cache modes x {ray tracing: number of tangential
+//                                  rays x FOV shape x use_actual_detector_boundaries; interpolation} against the
+//                                  no-symmetry/no-cache row (the property's own statement)
 //  section D (op `merge`)        : ProjMatrixElemsForOneBin::merge against the pointwise sum
 //  section E (oracle only)       : set_up again for an image that differs in its index range only, all bins, 3 cache modes
+// Diagnostics: C03_FAIL_CLASSES=1 prints every ORACLE-FAIL line and a histogram of failing configurations;
+//              C03_ALLFLAGS=1 sweeps all 32 switch combinations for the interpolating matrix on the special geometries.
 #include "stir_fixtures.h"
 #include "common.h"
 #include "stir/recon_buildblock/DataSymmetriesForBins_PET_CartesianGrid.h"
